@@ -3,6 +3,7 @@ package sim
 import (
 	"bytes"
 	"fmt"
+	"strings"
 	"testing"
 
 	"verifharness/prng"
@@ -35,6 +36,30 @@ func (c13) Gen(seed uint64, idx int, tier string) *Scenario {
 	long := r.Chance(1, 4)
 	p := genAccepted(r, long, "small") // long strings up to ~5000 bytes so sections straddle the 4096-byte buffer
 	sc.Src = p.Src
+	if sc.Class == "cuts" && idx%20 == 11 {
+		// sections with more entries than any plausible preallocation cap: > 4096 line feeds,
+		// > 4096 positions / constants; in the thorough tier also > 65536 line feeds
+		sc.Class = "cuts-big"
+		lines := r.Range(4100, 4400)
+		sc.SetInt("stride", 3)
+		if tier == "thorough" && idx%80 == 11 {
+			lines = r.Range(65600, 66000)
+			sc.SetInt("stride", 97)
+		}
+		var sb strings.Builder
+		for i := 0; i < lines; i++ {
+			switch {
+			case i%7 == 3:
+				fmt.Fprintf(&sb, "eval %d\n", i+2)
+			case i%11 == 5:
+				sb.WriteString("# c\n")
+			default:
+				sb.WriteString("\n")
+			}
+		}
+		sb.WriteString("print 1\n")
+		sc.Src = []byte(sb.String())
+	}
 	sc.Name = prng.Pick(r, []string{"f.bcl", "", "some/longer/name.bcl"})
 	sc.SetInt("pseed", r.Intn(1<<30))
 	return sc
@@ -42,13 +67,21 @@ func (c13) Gen(seed uint64, idx int, tier string) *Scenario {
 
 // c13Load hands data to LoadProg and reports a violation unless it fails cleanly.
 func c13Load(sc *Scenario, data []byte, script []simio.ReadStep, what string, o *Outcome, sig string) {
-	lr := loadVia(data, script, "n", false)
+	c13LoadOpt(sc, data, script, what, o, sig, false)
+}
+
+func c13LoadOpt(sc *Scenario, data []byte, script []simio.ReadStep, what string, o *Outcome, sig string, disasm bool) {
+	lr := loadVia(data, script, "n", disasm)
+	if disasm {
+		what += " with OptDisasm"
+	}
 	o.Evals++
 	concrete := func() *Scenario {
 		c := sc.Clone()
 		c.Class = "single"
 		c.SetBlob("data", data)
 		c.Reads = script
+		c.SetInt("disasm", b2i(disasm))
 		return c
 	}
 	switch {
@@ -62,7 +95,7 @@ func c13Load(sc *Scenario, data []byte, script []simio.ReadStep, what string, o 
 func (c13) Run(t *testing.T, sc *Scenario) *Outcome {
 	o := &Outcome{}
 	if sc.Class == "single" {
-		c13Load(sc, sc.Blobs["data"], sc.Reads, "the stored bytes of the replay file", o, sc.Str("sigclass"))
+		c13LoadOpt(sc, sc.Blobs["data"], sc.Reads, "the stored bytes of the replay file", o, sc.Str("sigclass"), sc.Int("disasm", 0) == 1)
 		o.Nontrivial = true
 		return o
 	}
@@ -112,12 +145,16 @@ func (c13) Run(t *testing.T, sc *Scenario) *Outcome {
 		o.fault("bad_version", o.Evals)
 		o.Nontrivial = true
 		o.probe("version_sweeps", 1)
-	default:
+	default: // "cuts", "cuts-big"
 		sc.SetStr("sigclass", "prefix")
 		if len(full) > 4096 {
 			o.probe("dump_beyond_4096", 1)
 		}
+		stride := sc.Int("stride", 1)
 		for k := 0; k < len(full); k++ {
+			if stride > 1 && k%stride != 0 && k < len(full)-600 {
+				continue // dumps of hundreds of KiB: every stride-th cut plus every cut of the last 600 bytes
+			}
 			// crash the write at byte k
 			disk := &simio.SimDisk{FailAt: k}
 			func() {
@@ -139,8 +176,13 @@ func (c13) Run(t *testing.T, sc *Scenario) *Outcome {
 			if k <= 1500 || (k%61 == 0 && k <= 12000) {
 				c13Load(sc, torn, MakeReads(r, k, "bytewise", nil), what+" (one byte per read)", o, "prefix")
 			}
-			script := MarkEOF(WithZeros(r, MakeReads(r, k, "geometric", nil), 1), k)
-			c13Load(sc, torn, script, what+" (seeded partition, zero reads, data+EOF)", o, "prefix")
+			part := "geometric"
+			if k > 3000 {
+				part = "page" // thousands of cuts of a large dump: pages (with zero reads and data+EOF), not 2-byte reads
+			}
+			script := MarkEOF(WithZeros(r, MakeReads(r, k, part, nil), 1), k)
+			// the options LoadProg takes are part of the call: the listing must not be attempted on a failed load
+			c13LoadOpt(sc, torn, script, what+" (seeded partition, zero reads, data+EOF)", o, "prefix", k%2 == 1)
 			if len(o.Violations) > 0 {
 				break
 			}
